@@ -132,6 +132,8 @@ type c08Rec struct {
 	pollFaultAt map[int]simnode.FailKind // by poller ordinal
 	nonPollN    int
 	pollN       int
+	// segDelay: segment downloads take this long (readers pile up behind a download in progress)
+	segDelay time.Duration
 }
 
 func newC08Rec() *c08Rec {
@@ -187,6 +189,9 @@ func (rc *c08Rec) hook(info *simnode.ReqInfo) simnode.Action {
 	rc.evs = append(rc.evs, ev)
 	rc.mu.Unlock()
 	act.Fail = fk
+	if ev.kind == "seg" {
+		act.Delay = rc.segDelay
+	}
 	if fk == simnode.FailHTTP {
 		act.Status = 503
 	}
@@ -684,7 +689,7 @@ func c08RunSeq(c *vk.Case, many bool) {
 	defer node.Retire()
 	rc := newC08Rec()
 	node.SetHook(rc.hook)
-	maxreads := r.Range(1, 6)
+	maxreads := r.Range(0, 6)
 	if many {
 		maxreads = r.Range(3, 6)
 	}
@@ -902,6 +907,13 @@ func c08RunConc(c *vk.Case) {
 	url := node.URL("")
 	shapes := c08Shapes() // every reader owns its blocks, so receipts and traces plans take part too
 	mix := []string{"same-range", "overlap", "many"}[r.Intn(3)]
+	if mix == "same-range" && r.Bool() {
+		// a slow source: more readers than maxreads arrive while one download of the range is in progress
+		rc.segDelay = time.Duration(r.Range(5, 25)) * time.Millisecond
+		maxreads = r.Range(1, 3)
+		cl = jrpc2.New(node.URL("")).WithMaxReads(maxreads)
+		c.Obs("conc_runs_with_slow_downloads", 1)
+	}
 	var keys [][2]uint64
 	switch mix {
 	case "same-range":
@@ -1152,7 +1164,7 @@ func c08RunHeadSeq(c *vk.Case) {
 	defer node.Retire()
 	rc := newC08Rec()
 	node.SetHook(rc.hook)
-	maxreads := r.Range(1, 6)
+	maxreads := r.Range(0, 6)
 	cl := jrpc2.New(node.URL("")).WithMaxReads(maxreads).WithPollDuration(time.Hour)
 	url := node.URL("")
 	var (
